@@ -41,7 +41,8 @@ type triple struct {
 	del      protoreflect.MethodDescriptor
 }
 
-func (t triple) key() string { return t.Row.key() + "/" + t.X }
+// key identifies the triple of one row (server + configuration); signatures use the server's key (Row.key()).
+func (t triple) key() string { return t.Row.rowKey() + "/" + t.X }
 
 // isPair: the service has Get and Pull for the resource but no Update RPC (sensors): the register is
 // written at the model level only.
@@ -257,6 +258,12 @@ type session struct {
 
 	noSeedWait    bool
 	createdByPoke bool
+	// singleItem: payloads carry at most one element per repeated message field (see shape.go)
+	singleItem bool
+	// dense, when set, is the field density of generated payloads (default 0.5)
+	dense float64
+	// multiWrite: a multi-item write happened while a stream was open (see noteWrite)
+	multiWrite bool
 	// keyedOpen, when set, adds the item key to the Pull request and returns the acceptor's open line prefix
 	keyedOpen func(req protoreflect.Message) string
 }
@@ -310,7 +317,7 @@ func (s *session) obs(line, verdict string) {
 }
 
 func (s *session) violate(class, what, expected, observed string) string {
-	sig := fmt.Sprintf("C14/%s/%s/%s", s.t.Row.key(), s.t.X, class)
+	sig := fmt.Sprintf("C14/%s/%s/%s", s.t.Row.key(), s.t.X, s.sigQual(class))
 	s.mon.Violate(sig, what, s.input(s.step+1), expected, observed)
 	s.failed = true
 	return "reject:" + class
@@ -446,7 +453,7 @@ func paths(m *fieldmaskpb.FieldMask) string {
 
 func (s *session) doUpdate() {
 	req := newMsg(s.t.update.Input())
-	s.g.Density = 0.5
+	s.g.Density = s.density()
 	// random extras first (relative/delta flags etc.: part of the arbitrary interceptor), then the canonical fields
 	tmp := s.g.Message(req.Type())
 	req = tmp.ProtoReflect()
@@ -460,6 +467,9 @@ func (s *session) doUpdate() {
 	pf := payloadField(s.t.update.Input(), s.t.resource)
 	payload := s.g.Message(newMsg(s.t.resource).Type())
 	stripTweens(payload.ProtoReflect())
+	if s.singleItem {
+		capLists(payload.ProtoReflect(), 1)
+	}
 	req.Set(pf, protoreflect.ValueOfMessage(payload.ProtoReflect()))
 	um := s.randMask(s.t.resource, 50, false)
 	if um != nil && len(um.Paths) == 0 {
@@ -488,6 +498,7 @@ func (s *session) doUpdate() {
 	s.mon.Count("update-ok")
 	prev := s.cur
 	s.cur = proto.Clone(got)
+	s.noteWrite(payload, prev, s.cur)
 	for _, st := range s.streams {
 		if st.closed {
 			continue
@@ -587,17 +598,46 @@ func (s *session) doPull() {
 }
 
 func (s *session) doPullWith(mask *fieldmaskpb.FieldMask, uo bool) {
+	openLine := "open"
+	var prep func(req protoreflect.Message)
+	if s.keyedOpen != nil {
+		prep = func(req protoreflect.Message) { openLine = s.keyedOpen(req) }
+	}
+	st, op, failure := s.openStream(mask, uo, prep)
+	if st == nil {
+		s.trace = append(s.trace, stepDesc{s.step, op, "failed: " + failure})
+		s.obs("openerr", s.violate("Pull/open-failed", "opening a Pull stream failed", "a stream", failure))
+		return
+	}
+	s.streams = append(s.streams, st)
+	s.trace = append(s.trace, stepDesc{s.step, op, fmt.Sprintf("stream#%d", len(s.streams)-1)})
+	if !uo && s.cur != nil {
+		s.fact(mask, s.cur)
+		st.queue = append(st.queue, expect{val: project(mask, s.cur), must: true})
+	}
+	uoi := 0
+	if uo {
+		uoi = 1
+	}
+	s.obs(fmt.Sprintf("%s %d %d", openLine, s.maskID(mask), uoi), "ok")
+	if !s.noSeedWait {
+		s.drainSeed(len(s.streams) - 1)
+	}
+}
+
+// openStream sends the Pull request (name, read_mask, updates_only; prep may add more) and starts the goroutine that
+// turns the responses into streamMsgs. It returns nil and the failure if the call failed.
+func (s *session) openStream(mask *fieldmaskpb.FieldMask, uo bool, prep func(req protoreflect.Message)) (st *pullStream, op, failure string) {
 	req := newMsg(s.t.pull.Input())
 	setStr(req, "name", devName)
 	setMask(req, "read_mask", mask)
-	openLine := "open"
-	if s.keyedOpen != nil {
-		openLine = s.keyedOpen(req)
+	if prep != nil {
+		prep(req)
 	}
 	if fd := req.Descriptor().Fields().ByName("updates_only"); fd != nil {
 		req.Set(fd, protoreflect.ValueOfBool(uo))
 	}
-	op := fmt.Sprintf("%s(read_mask=%v updates_only=%v)", s.t.pull.Name(), paths(mask), uo)
+	op = fmt.Sprintf("%s(read_mask=%v updates_only=%v)", s.t.pull.Name(), paths(mask), uo)
 	ctx, cancel := context.WithCancel(context.Background())
 	var out []reflect.Value
 	m := s.client.MethodByName(string(s.t.pull.Name()))
@@ -606,12 +646,10 @@ func (s *session) doPullWith(mask *fieldmaskpb.FieldMask, uo bool) {
 	})
 	if panicked || !out[1].IsNil() {
 		cancel()
-		s.trace = append(s.trace, stepDesc{s.step, op, "failed: " + pm})
-		s.obs("openerr", s.violate("Pull/open-failed", "opening a Pull stream failed", "a stream", pm+fmt.Sprint(out)))
-		return
+		return nil, op, pm + fmt.Sprint(out)
 	}
 	stream := out[0]
-	st := &pullStream{mask: mask, maskID: s.maskID(mask), uo: uo, cancel: cancel, ch: make(chan streamMsg, 64)}
+	st = &pullStream{mask: mask, maskID: s.maskID(mask), uo: uo, cancel: cancel, ch: make(chan streamMsg, 64)}
 	recv := stream.MethodByName("Recv")
 	pullOut := s.t.pull.Output()
 	go func() {
@@ -648,20 +686,7 @@ func (s *session) doPullWith(mask *fieldmaskpb.FieldMask, uo bool) {
 			}
 		}
 	}()
-	s.streams = append(s.streams, st)
-	s.trace = append(s.trace, stepDesc{s.step, op, fmt.Sprintf("stream#%d", len(s.streams)-1)})
-	if !uo && s.cur != nil {
-		s.fact(mask, s.cur)
-		st.queue = append(st.queue, expect{val: project(mask, s.cur), must: true})
-	}
-	uoi := 0
-	if uo {
-		uoi = 1
-	}
-	s.obs(fmt.Sprintf("%s %d %d", openLine, s.maskID(mask), uoi), "ok")
-	if !s.noSeedWait {
-		s.drainSeed(len(s.streams) - 1)
-	}
+	return st, op, ""
 }
 
 // openNoWait opens a seeded, unmasked stream and returns without waiting for the seed.
@@ -766,6 +791,7 @@ func runSession(t triple, sid sessionID, mon *lib.Monitor) (lines, verdicts []st
 	cl, model := t.Row.New()
 	s.client = reflect.ValueOf(cl)
 	s.pokes = pokeMethods(model, t.resource)
+	s.singleItem = sid.Seq%2 == 1
 	s.input = func(n int) any {
 		return map[string]any{"kind": "triple", "triple": sid.Triple, "seed": sid.Seed, "seq": sid.Seq, "steps": n, "trace": tailTrace(s.trace, 14)}
 	}
@@ -789,10 +815,17 @@ func runSession(t triple, sid sessionID, mon *lib.Monitor) (lines, verdicts []st
 				s.doUpdate()
 			}
 		case x < 14:
-			s.doGet(s.randMask(s.t.resource, 40, true))
+			m := s.randMask(s.t.resource, 40, true)
+			s.doGet(m)
+			if m != nil && !s.failed {
+				s.doGet(nil) // a read does not change the register
+			}
 		case x < 18:
 			if s.openCount() < 2 {
 				s.doPull()
+				if !s.failed {
+					s.doGet(nil) // opening a (masked) stream does not change the register
+				}
 			}
 		default:
 			s.doClose()
@@ -880,9 +913,12 @@ func (s *session) doPoke() {
 		return
 	}
 	m := s.pokes[s.r.Intn(len(s.pokes))]
-	s.g.Density = 0.5
+	s.g.Density = s.density()
 	payload := s.g.Message(newMsg(s.t.resource).Type())
 	stripTweens(payload.ProtoReflect())
+	if s.singleItem {
+		capLists(payload.ProtoReflect(), 1)
+	}
 	op := fmt.Sprintf("model-level write(%s)", txt(payload))
 	reportProgress(progress{Sid: s.sid, Step: s.step, Op: op, Trace: tailTrace(s.trace, 12)})
 	var outs []reflect.Value
@@ -923,6 +959,7 @@ func (s *session) doPoke() {
 	s.trace = append(s.trace, stepDesc{s.step, op, "now " + txt(got)})
 	prev := s.cur
 	s.cur = proto.Clone(got)
+	s.noteWrite(payload, prev, s.cur)
 	for _, st := range s.streams {
 		if st.closed {
 			continue
@@ -937,6 +974,13 @@ func (s *session) doPoke() {
 	}
 	s.obs(fmt.Sprintf("updok %d", s.id(got)), "ok")
 	s.drain(true)
+}
+
+func (s *session) density() float64 {
+	if s.dense > 0 {
+		return s.dense
+	}
+	return 0.5
 }
 
 func ctxBg() context.Context { return context.Background() }
